@@ -1,5 +1,5 @@
 """Per-property check procedures."""
-import json, os, shutil, time, hashlib, random
+import json, os, re, shutil, time, hashlib, random
 from vcommon import *
 from vmodel import *
 from vtree import *
@@ -650,6 +650,34 @@ def check_C10(work, prop, tier, seed, t0):
                 violations = 1
                 break
             os.remove(path)
+            # the segment alone is right in a fresh process: the failure needs what the process did to the shared node pool
+            # before it. Re-execute everything the process had done up to that line (this part of its trace, then all parts).
+            confirmed = False
+            base = re.sub(r"\.p\d+$", "", v.file)
+            parts = sorted([f for f in files if f == base or f.startswith(base + ".p")], key=lambda f: int(f.rsplit(".p", 1)[1]) if ".p" in f[len(base):] else 0)
+            for scope in ("part", "process"):
+                if scope == "part":
+                    hist = lines_
+                else:
+                    hist = []
+                    for f in parts:
+                        if f == v.file:
+                            break
+                        hist += open(f).readlines()
+                    hist += lines_
+                path = save_replay(prop, hist)
+                st2, info = confirm_node(work, drive if "386" not in v.file else variants[-1][1], path)
+                if st2 == "confirmed":
+                    print("VIOLATION property=%s replay=%s" % (prop, path), flush=True)
+                    e = json.loads(seg[-1])
+                    print("  %s fails at: %s (only after the earlier node histories of the same process: shared pool state)" % (
+                        v.invariant, json.dumps({k: e[k] for k in e if k in ("op", "b", "kind", "n", "w", "pan")})), flush=True)
+                    violations = 1
+                    confirmed = True
+                    break
+                os.remove(path)
+            if confirmed:
+                break
             raise Infra("node violation did not reproduce: %s" % info)
     # conformance of the raw-lane model itself: ArtNode stepped next to random ramps of the real node (informative)
     node_drift = None
